@@ -40,6 +40,54 @@ Proof.
   - apply IH; auto. intros x Hx. apply Hd. right; exact Hx.
 Qed.
 
+Lemma Forall2_join {A B C} (R : A -> B -> Prop) (S : A -> C -> Prop) l l1 l2 :
+  Forall2 R l l1 -> Forall2 S l l2 -> Forall2 (fun b c => exists a, In a l /\ R a b /\ S a c) l1 l2.
+Proof.
+  intros H1; revert l2; induction H1 as [|a b l l1 Hab _ IH]; intros l2 H2; inversion H2 as [|? c ? l2' Hac H2']; subst.
+  - constructor.
+  - constructor; [exists a; split; [left; reflexivity | auto]|].
+    eapply Forall2_impl_In; [|apply IH; exact H2']. cbn. intros x y _ _ [a' [Ha' Hr]]. exists a'. split; [right; exact Ha' | exact Hr].
+Qed.
+
+Lemma max_among {X} (f : X -> N) (Q : X -> Prop) (dec : forall x, {Q x} + {~ Q x}) (l : list X) :
+  (forall x, In x l -> ~ Q x) \/
+  exists m, In m l /\ Q m /\ forall x, In x l -> Q x -> (f x <= f m)%N.
+Proof.
+  induction l as [|a l IH]; [left; intros x []|].
+  destruct IH as [Hn | [m [Hm [Qm Hmax]]]].
+  - destruct (dec a) as [Qa|Na].
+    + right. exists a. split; [left; reflexivity|]. split; [exact Qa|].
+      intros x [<-|Hx] Qx; [lia | contradiction (Hn x Hx Qx)].
+    + left. intros x [<-|Hx]; auto.
+  - destruct (dec a) as [Qa|Na].
+    + destruct (N.le_ge_cases (f a) (f m)) as [Hle|Hge].
+      * right. exists m. split; [right; exact Hm|]. split; [exact Qm|].
+        intros x [<-|Hx] Qx; [exact Hle | apply Hmax; assumption].
+      * right. exists a. split; [left; reflexivity|]. split; [exact Qa|].
+        intros x [<-|Hx] Qx; [lia | specialize (Hmax x Hx Qx); lia].
+    + right. exists m. split; [right; exact Hm|]. split; [exact Qm|].
+      intros x [<-|Hx] Qx; [contradiction | apply Hmax; assumption].
+Qed.
+
+Definition vclass_eq_dec (a b : vclass) : {a = b} + {a <> b}.
+Proof. decide equality; apply str_eq_dec. Defined.
+
+(** all entries of a property dictionary *)
+Definition pd_list (pd : pdict) : list (str * str * ckey * N) :=
+  flat_map (fun pe : str * dict cdict =>
+    flat_map (fun ke : str * cdict =>
+      map (fun ce : ckey * N => (fst pe, fst ke, fst ce, snd ce)) (snd ke)) (snd pe)) pd.
+
+Lemma pd_list_In pd p k ck n : In (p, k, ck, n) (pd_list pd) <-> pd_entry pd p k ck n.
+Proof.
+  unfold pd_list, pd_entry. rewrite in_flat_map. split.
+  - intros [[p' kd] [Hp H]]. apply in_flat_map in H. destruct H as [[k' cd] [Hk H]].
+    apply in_map_iff in H. destruct H as [[ck' n'] [E Hc]]. cbn in E. injection E as -> -> -> ->.
+    exists kd, cd. auto.
+  - intros (kd & cd & Hp & Hk & Hc). exists (p, kd). split; [exact Hp|]. apply in_flat_map.
+    exists (k, cd). split; [exact Hk|]. apply in_map_iff. exists (ck, n). auto.
+Qed.
+
 Section Keys.
   Variable fa : FreqAlg.
   Variable cfg : scfg.
@@ -722,4 +770,115 @@ Section Keys.
     rewrite Ec in Ec'. apply card_of_key_inj in Ec'. subst ck'.
     rewrite (Hfun _ _ _ _ _ E1 E2). auto.
   Qed.
+
+  (** ** what needs laws of the frequency algebra
+
+      [okN] singles out the class sizes and [okF] the frequency values on
+      which the order laws hold (for the rationals: positive size, positive
+      denominator; for binary64 also size < 2^53). *)
+  Section Laws.
+    Variable okF : F fa -> Prop.
+    Variable okN : N -> Prop.
+    Hypothesis ratio_ok : forall n N, okN N -> okF (ratio fa n N).
+    Hypothesis fle_trans : forall a b c, okF a -> okF b -> okF c ->
+      fle fa a b = true -> fle fa b c = true -> fle fa a c = true.
+    Hypothesis ratio_mono : forall n1 n2 N, okN N -> (n1 <= n2)%N ->
+      fle fa (ratio fa n1 N) (ratio fa n2 N) = true.
+
+    (** K1, corollary: a key is present iff the LARGEST count among the
+        entries of the key reaches the threshold *)
+    Theorem key_passes_max thr cnt pd p vc :
+      okF thr -> okN cnt ->
+      (key_passes thr cnt pd p vc <->
+       exists k ck n, pd_entry pd p k ck n /\ value_class (x_tau cfg) p [k] = vc /\
+                      (forall k' ck' n', pd_entry pd p k' ck' n' -> value_class (x_tau cfg) p [k'] = vc -> (n' <= n)%N) /\
+                      fle fa thr (ratio fa n cnt) = true).
+    Proof.
+      intros Ht Hn. split.
+      - intros (k & ck & n & He & Hv & Hf).
+        set (Q := fun x : str * str * ckey * N =>
+                    fst (fst (fst x)) = p /\ value_class (x_tau cfg) p [snd (fst (fst x))] = vc).
+        assert (dec : forall x, {Q x} + {~ Q x}).
+        { intros [[[p' k'] ck'] n']. unfold Q; cbn.
+          destruct (str_eq_dec p' p) as [->|Hp]; [|right; tauto].
+          destruct (vclass_eq_dec (value_class (x_tau cfg) p [k']) vc); [left; auto | right; tauto]. }
+        destruct (max_among (fun x => snd x) Q dec (pd_list pd)) as [Hnone | [[[[pm km] ckm] nm] [Hm [[Qm1 Qm2] Hmax]]]].
+        + exfalso. apply (Hnone (p, k, ck, n)); [apply pd_list_In; exact He | split; auto].
+        + cbn in Qm1, Qm2. subst pm. exists km, ckm, nm. apply pd_list_In in Hm.
+          split; [exact Hm|]. split; [exact Qm2|]. split.
+          * intros k' ck' n' He' Hv'. apply (Hmax (p, k', ck', n')); [apply pd_list_In; exact He' | split; auto].
+          * assert (Hle : (n <= nm)%N) by (apply (Hmax (p, k, ck, n)); [apply pd_list_In; exact He | split; auto]).
+            apply (fle_trans thr (ratio fa n cnt)); auto.
+      - intros (k & ck & n & He & Hv & _ & Hf). exists k, ck, n. auto.
+    Qed.
+
+    (** K2 at the level of keys: raising the threshold only removes keys *)
+    Theorem key_passes_mono thr1 thr2 cnt pd p vc :
+      okF thr1 -> okF thr2 -> okN cnt -> fle fa thr1 thr2 = true ->
+      key_passes thr2 cnt pd p vc -> key_passes thr1 cnt pd p vc.
+    Proof.
+      intros H1 H2 Hn Hle (k & ck & n & He & Hv & Hf). exists k, ck, n.
+      split; [exact He|]. split; [exact Hv|]. apply (fle_trans thr1 thr2); auto.
+    Qed.
+
+    (** the sizes of the classes that have at least one entry are in range *)
+    Definition counts_ok (P : cprofile) (C : ccounts) : Prop :=
+      forall ce inv p k ck n, In ce P -> pd_entry (class_pd ce inv) p k ck n -> okN (cnt_of C (fst ce)).
+
+    Lemma key_passes_entry thr cnt pd p vc :
+      key_passes thr cnt pd p vc -> exists k ck n, pd_entry pd p k ck n.
+    Proof. intros (k & ck & n & He & _). eauto. Qed.
+
+    (** two runs on the same profile, before empty shapes are removed *)
+    Lemma class_mono thr1 thr2 C P ce sh1 sh2 :
+      okF thr1 -> okF thr2 -> counts_ok P C -> fle fa thr1 thr2 = true -> In ce P ->
+      shex_class fa cfg thr1 C ce = inl sh1 -> shex_class fa cfg thr2 C ce = inl sh2 ->
+      sh_name sh1 = sh_name sh2 /\ sh_class sh1 = sh_class sh2 /\ sh_n sh1 = sh_n sh2 /\
+      incl (map skey (sh_stmts sh2)) (map skey (sh_stmts sh1)).
+    Proof.
+      intros H1 H2 Hc Hle Hce S1 S2.
+      destruct (shex_class_unfold thr1 C ce sh1 S1) as (_ & _ & _ & _ & _ & A1 & A2 & A3).
+      destruct (shex_class_unfold thr2 C ce sh2 S2) as (_ & _ & _ & _ & _ & B1 & B2 & B3).
+      rewrite A1, A2, A3, B1, B2, B3. repeat split; auto.
+      intros [[inv p] vc] Hin. apply (shex_class_keys thr2 C ce sh2 S2) in Hin.
+      apply (shex_class_keys thr1 C ce sh1 S1).
+      destruct (key_passes_entry _ _ _ _ _ Hin) as (k & ck & n & He).
+      apply (key_passes_mono thr1 thr2); auto. apply (Hc ce inv p k ck n Hce He).
+    Qed.
+
+    Lemma pre_mono thr1 thr2 P C l1 l2 :
+      okF thr1 -> okF thr2 -> counts_ok P C -> fle fa thr1 thr2 = true ->
+      Forall2 (fun ce sh => shex_class fa cfg thr1 C ce = inl sh) P l1 ->
+      Forall2 (fun ce sh => shex_class fa cfg thr2 C ce = inl sh) P l2 ->
+      Forall2 (fun sh1 sh2 =>
+        sh_name sh1 = sh_name sh2 /\ sh_class sh1 = sh_class sh2 /\ sh_n sh1 = sh_n sh2 /\
+        incl (map skey (sh_stmts sh2)) (map skey (sh_stmts sh1))) l1 l2.
+    Proof.
+      intros H1 H2 Hc Hle F1 F2.
+      eapply Forall2_impl_In; [|apply (Forall2_join _ _ _ _ _ F1 F2)].
+      cbn. intros sh1 sh2 _ _ (ce & Hce & S1 & S2). apply (class_mono thr1 thr2 C P ce); auto.
+    Qed.
+
+    (** K2 (C12), empty shapes kept: shape by shape, the keys at the higher
+        threshold are keys at the lower one *)
+    Theorem K2_keep thr1 thr2 P C s1 s2 :
+      x_remove_empty cfg = false -> okF thr1 -> okF thr2 -> counts_ok P C -> fle fa thr1 thr2 = true ->
+      shex fa cfg thr1 P C = inl s1 -> shex fa cfg thr2 P C = inl s2 ->
+      Forall2 (fun sh1 sh2 =>
+        sh_name sh1 = sh_name sh2 /\ sh_class sh1 = sh_class sh2 /\ sh_n sh1 = sh_n sh2 /\
+        incl (map skey (sh_stmts sh2)) (map skey (sh_stmts sh1))) s1 s2.
+    Proof.
+      intros Hre H1 H2 Hc Hle E1 E2.
+      destruct (shex_unfold thr1 P C s1 E1) as [l1 [F1 G1]]. destruct (shex_unfold thr2 P C s2 E2) as [l2 [F2 G2]].
+      rewrite Hre in G1, G2. subst l1 l2. apply (pre_mono thr1 thr2 P C); auto.
+    Qed.
+
+    (** a shape that is empty at the lower threshold is empty at the higher one *)
+    Corollary empty_mono sh1 sh2 :
+      incl (map skey (sh_stmts sh2)) (map skey (sh_stmts sh1)) -> sh_stmts sh1 = [] -> sh_stmts sh2 = [].
+    Proof.
+      intros Hi E. rewrite E in Hi. destruct (sh_stmts sh2) as [|st l]; [reflexivity|].
+      destruct (Hi (skey st) (or_introl eq_refl)).
+    Qed.
+  End Laws.
 End Keys.
